@@ -1,4 +1,5 @@
 CONSTANTS
+  Kind = "bw"
   Items <- FileItems
   Fanout = 2
   CacheCap = 2
